@@ -14,9 +14,9 @@ CLAIMED = {
     text='Slice: the FastCGI length/name-value decoder (read_len, parse_pairs), the FastCGI record cache (peek/skip/read_bytes, async_read_from_socket, on_some_read_from_socket, '
          'non_blocking_read_record: the delivered bytes are a prefix of the received bytes however the stream is cut), the FastCGI STDIN hand-over (async_read_some, on_some_input_recieved, on_read_stdin_eof_expected: '
          'the next min(s,unread) bytes of the current record are delivered in order and accounted once, exactly the rest stays buffered, the cursor never leaves the buffer, reading past CONTENT_LENGTH is refused), '
-         'the SCGI netstring reader, and util::urldecode are under contract for all inputs. The embedded HTTP server\'s header splitter is under contract: RFC 2616 token / separators / LWS helpers, parse_single_header (the CGI variable name is the header\'s token upper-cased with - -> _, the value is the rest of the line after the colon and white space, verbatim; both copies fit their allocation - proved in the thorough tier, about 7 minutes) and, in the quick tier, the normalisation step of its loop (every letter a..z).',
-    note=TRUST + 'Covered only as a slice: end-to-end equality of the request seen through HTTP/SCGI/FastCGI (goes through cppcms::service and the event loop), the embedded HTTP parser, '
-         'cookies/forms and keep-alive sequencing are NOT covered. std::vector buffers are modelled as a fixed-capacity object with a logical size; string pool / environment map are stubs.',
+         'the SCGI netstring reader, and util::urldecode are under contract for all inputs. The embedded HTTP server: the request line is split at its first two spaces (method / URI without any space, protocol = the rest, HTTP/1.1 by exact comparison; fewer than two spaces = protocol violation), process_request splits the URI into QUERY_STRING (after the FIRST ?), SCRIPT_NAME (a configured name that prefixes the path on a segment boundary) and PATH_INFO (the decoded rest), and body bytes that arrived with the headers are handed over in order before the socket is read (http::async_read_some). The header splitter is under contract: RFC 2616 token / separators / LWS helpers, parse_single_header (the CGI variable name is the header\'s token upper-cased with - -> _, the value is the rest of the line after the colon and white space, verbatim; both copies fit their allocation - proved in the thorough tier, about 7 minutes) and, in the quick tier, the normalisation step of its loop (every letter a..z).',
+    note=TRUST + 'Covered only as a slice: end-to-end equality of the request seen through HTTP/SCGI/FastCGI (goes through cppcms::service and the event loop), '
+         'cookies/forms, REMOTE_ADDR / proxy variables, rewrite rules and keep-alive sequencing are NOT covered; of the script-name choice only soundness (the chosen name is a segment prefix) is under contract; script names are shorter than 256 bytes, at most 200 of them. std::vector buffers are modelled as a fixed-capacity object with a logical size; string pool / environment map are stubs.',
     design='4 (C01/C02/C12)', technique='cbmc code contracts (dfcc) + loop contracts on extracted C; representation invariant of the record cache'),
  'C02': dict(
     text='For arbitrary peer bytes every extracted FastCGI and SCGI protocol callback (on_start_request, params_record_expected, stdin_eof_expected, on_header_read, on_body_read, '
@@ -35,9 +35,9 @@ CLAIMED = {
  'C05': dict(
     text='Slice: hmac_cipher::equal is proved to return true exactly when all bytes are equal while visiting every byte (no data-dependent exit); hmac_cipher::decrypt and aes_cipher::decrypt are proved to '
          'accept only when the MAC was computed over the whole message part, compared in full with the trailing tag and matched, to decrypt only after that, and to keep every length derived from the cookie inside the buffers; '
-         'base64url decode (unit base64) is exact. The combined-key constructor aes_factory(algo,key) is under contract: both keys are set exactly once with the lengths the primitives need; for a combined key the AES key and the MAC key tile the configured key (every key byte is used, none twice); any other accepted key is expanded with a keyed hash of the WHOLE key.',
-    note=TRUST + 'HMAC unforgeability and CBC confidentiality are ASSUMED (crypto objects are stubs that record/range-check arguments). Not covered: session_cookies::load/save, encrypt side, key derivation, '
-         'expiry test in the cookie loader, "reveals neither payload nor equality".',
+         'base64url decode (unit base64) is exact. The combined-key constructor aes_factory(algo,key) is under contract: both keys are set exactly once with the lengths the primitives need; for a combined key the AES key and the MAC key tile the configured key (every key byte is used, none twice); any other accepted key is expanded with a keyed hash of the WHOLE key. session_cookies::load / save are under contract: a session is loaded only from a cookie "C" ++ base64url(cipher) that the encryptor authenticated, the expiry is the first sizeof(time_t) bytes of the plain text and is not in the past, the data is the rest, every rejected cookie is cleared, and save encrypts exactly expiry ++ data. session_interface::load: data the back end authenticated but that does not parse is rejected and cleared and no exception leaves load() (genuine defect F10, fixed).',
+    note=TRUST + 'HMAC unforgeability and CBC confidentiality are ASSUMED (crypto objects are stubs that record/range-check arguments). Not covered: encrypt side of the ciphers, key derivation beyond the split, '
+         'domain separation between algorithms that share an HMAC key (observation in DESIGN.md section 5), "reveals neither payload nor equality".',
     design='4 (C05/C06)', technique='cbmc code contracts (dfcc): loop contract for the constant-time compare, ghost-recorded MAC-then-decrypt protocol skeleton'),
  'C06': dict(
     text='Slice: session_sid::valid_sid accepts exactly the language I[0-9a-f]{32} and hands on exactly the 32 digits; new identifiers are 32 lower-case hex digits (tohex exact for 16 bytes); '
@@ -60,10 +60,10 @@ CLAIMED = {
     design='4 (C01/C02/C12)', technique='cbmc code contracts (dfcc) + nested loop contracts with a conservation invariant; bounded unwinding for byte-exactness'),
  'C13': dict(
     text='is_file_prefix is proved (unbounded) to match aliases / the document root only on whole path components. normalize_path is decided by a BOUNDED stand-in: for every request path of up to 8 bytes '
-         'its result equals a reference component-stack normalisation (leading /, no ., .., empty component, never above the root). A genuine defect found this way (the / before the component after a .. was lost) is fixed. is_in_root: with symlink checking on, a path is accepted only if root/path was resolved and the RESOLVED name passes the whole-component prefix test against the root. file_server::main: whatever the request, the only paths ever opened, streamed or listed are results of a successful check_in_document_root (provenance bit per path), the index file of a directory included.',
-    note=TRUST + 'The check for path normalisation is a BOUNDED stand-in (two-pointer in-place compaction, outside the reach of cbmc 6.11 loop contracts) and is not counted among the discharged obligations; only is_file_prefix is proved without bound. Not covered: alias loop and realpath/symlink logic of '
-         'check_in_document_root, percent-decoding order, directory listings, file-system behaviour.',
-    design='4 (C13)', technique='cbmc code contract for is_file_prefix; bounded unwinding vs reference normalisation for normalize_path'),
+         'its result equals a reference component-stack normalisation (leading /, no ., .., empty component, never above the root). A genuine defect found this way (the / before the component after a .. was lost) is fixed. is_in_root: with symlink checking on, a path is accepted only if root/path was resolved and the RESOLVED name passes the whole-component prefix test against the root. file_server::main: whatever the request, the only paths ever opened, streamed or listed are results of a successful check_in_document_root (provenance bit per path), the index file of a directory included. check_in_document_root (unbounded number of aliases, loop contract): the path is normalised exactly once before any test; the root is the document root unless an alias is a whole-component prefix of the NORMALISED path, then it is that alias\' target with the prefix stripped (/ if nothing is left); the result is is_in_root(path, root) with symlink checking, root ++ path (non-empty, absolute) without.',
+    note=TRUST + 'The check for path normalisation is a BOUNDED stand-in (two-pointer in-place compaction, outside the reach of cbmc 6.11 loop contracts) and is not counted among the discharged obligations; the other functions are proved without bound over opaque string ids with recorder / oracle collaborators. Not covered: std::string and realpath themselves, symlink resolution by the OS, '
+         'percent-decoding order, directory listings, file-system behaviour.',
+    design='4 (C13)', technique='cbmc code contracts (dfcc) + loop contract (is_file_prefix, is_in_root, check_in_document_root, main); bounded unwinding vs reference normalisation for normalize_path'),
  'C14': dict(
     text='Function contracts written from RFC 3629 and from the property text are enforced by cbmc (dfcc) on the mechanically extracted bodies of '
          'both UTF-8 decoders, utf8::validate, utf8::encode, all 17 single-byte validators and the two filter functions of encoding.cpp, for all inputs '
@@ -108,7 +108,7 @@ CLAIMED = {
          'found under the key and makes it the most recently used entry; nothing else changes. store: an entry already stored under the key is deleted first; the new node carries the value, a generation no earlier store had (the counter strictly increases) '
          'or the caller\'s, its deadline is registered, and the key itself plus every listed trigger are attached to it. remove deletes the node under the key and no other. rise deletes every entry on the trigger\'s list exactly once, in order, and nothing else. '
          'delete_node takes the node out of ALL four structures (LRU position, deadline entry, every trigger link it owns, key map) and the counters follow. Representation invariant size = |primary| = |lru| = |timeout|, triggers_count = number of links, kept by every function. cache_interface (trigger recording): add_trigger attaches the trigger to the page being built and hands it to EVERY active recorder exactly once; '
-         'fetch of a cached frame inherits every trigger the back end reports (in order, once each; none on a miss or with notriggers); store adds the frame\'s triggers and its own key to the enclosing page and passes exactly key, data, trigger set and now+timeout (negative = never) to the back end.',
+         'fetch of a cached frame inherits every trigger the back end reports (in order, once each; none on a miss or with notriggers); store adds the frame\'s triggers and its own key to the enclosing page and passes exactly key, data, trigger set and now+timeout (negative = never) to the back end. Whole-page caching: store_page attaches the page\'s own key BEFORE handing the page\'s whole trigger set to the back end, stores the output copied after finalize under the variant (compressed / plain) fetch_page chose; fetch_page looks the page up under the variant the client can take, writes exactly the cached bytes on a hit (gzip declared only for the compressed variant) and arranges the copy on a miss.',
     note=TRUST + 'NOT covered: the containers themselves (private/hash_map.h, std::list, std::multimap: iterators are opaque handles, every operation is a recorder with ghost cardinalities), hence the history-level statement '
          '(a fetch returns the value of the most recent store unless invalidated) which is a composition of these per-call contracts with container semantics; fetch_page/store_page (response stream) and the recorder objects\' own set operations; locks are dropped (C09 n/a); bad_alloc paths are cut. '
          'add_trigger and nl_clear are contract stubs. Deadline equal to now may count either way.',
